@@ -235,10 +235,21 @@ int main(int argc, char** argv) {
   t7.group = "T7";
   t7.chunk = 32;
   t7.rule = "all ordered triples (x,y,z) over " + std::to_string(t7v.size()) + " numbers (+-0.0, equal values of different kinds 0 / 0.0, 1 / 1.0, 100 / 100.0, extremes) set through the API as [x,y,z], {\"a\":x,\"b\":y,\"c\":z}, [x,\"s\",[y],z]: each number must be printed as it is alone, kinds and signs kept";
+  // T8: a container closes at every fill level of the write buffer, right after an empty container or
+  // another closing bracket (the only places where no reservation precedes the closing bracket)
+  vr::Family t8;
+  static unsigned T8F;
+  T8F = 1301;
+  t8.name = "T8_close_at_every_fill";
+  t8.count = (uint64_t)T8F * 8;
+  t8.group = "T8";
+  t8.chunk = 64;
+  t8.rule = "documents [[1,1,...,X]] / {\"k\":[1,1,...,X]} with an inner array of f in 0..1300 bytes of literals (null / false: values that reserve almost nothing) followed by X in {[], {}, [[]], [{}]}: the closing brackets fall on every offset relative to the buffer capacities 256/512/1024 (fresh, reused) and those of WriteBuffer(8) / WriteBuffer(16); output compared byte for byte; under ASan a stale pointer across a reallocation is a crash";
   fams.push_back(g1);
   fams.push_back(t5);
   fams.push_back(t6);
   fams.push_back(t7);
+  fams.push_back(t8);
   fams.push_back(t2);
   fams.push_back(t3);
   fams.push_back(t4);
@@ -350,6 +361,76 @@ int main(int argc, char** argv) {
         WriteBuffer wb(1);
         cmp(wb, "WriteBuffer(1)");
       }
+      return;
+    }
+    if (nm[1] == '8') {
+      unsigned shape = (unsigned)(idx % 8);
+      unsigned f = (unsigned)(idx / 8);
+      static const char* xs[4] = {"[]", "{}", "[[]]", "[{}]"};
+      const char* X = xs[shape % 4];
+      bool objroot = shape >= 4;
+      Document d;
+      auto& al = d.GetAllocator();
+      std::string exp = objroot ? "{\"k\":[" : "[[";
+      Node inner;
+      inner.SetArray();
+      // the fill is made of LITERALS (null, 5 bytes with its comma; false, 6): numbers and strings reserve 33+ bytes
+      // before they are written, so a buffer can only be nearly full after literals and brackets
+      unsigned nf = f % 5, nn = 0;
+      if (f < 6 * nf) {
+        ctx.skip();
+        return;
+      }
+      nn = (f - 6 * nf) / 5;
+      for (unsigned i = 0; i < nn + nf; i++) {
+        bool fl = i < nf;
+        inner.PushBack(fl ? Node(false) : Node(kNull), al);
+        exp += fl ? "false," : "null,";
+      }
+      {
+        Node x;
+        if (X[0] == '[') x.SetArray(); else x.SetObject();
+        if (X[1] == '[') {
+          Node y;
+          y.SetArray();
+          x.PushBack(std::move(y), al);
+        } else if (X[1] == '{') {
+          Node y;
+          y.SetObject();
+          x.PushBack(std::move(y), al);
+        }
+        inner.PushBack(std::move(x), al);
+        exp += X;
+      }
+      if (objroot) {
+        d.SetObject();
+        d.AddMember("k", std::move(inner), al);
+        exp += "]}";
+      } else {
+        d.SetArray();
+        d.PushBack(std::move(inner), al);
+        exp += "]]";
+      }
+      ctx.eval();
+      ctx.nontriv();
+      std::string desc = std::string(objroot ? "object root, " : "array root, ") + "fill " + std::to_string(f) + " then " + X;
+      if (ctx.want_sample) ctx.sample(desc);
+      auto cmp = [&](WriteBuffer& wb, const char* st) {
+        SonicError e = d.Serialize(wb);
+        if (e != kErrorNone || wb.Size() != exp.size() || std::memcmp(wb.ToString(), exp.data(), exp.size()) != 0)
+          ctx.violation("close_output", "ser_close_at_fill_output", desc, "[%s] Serialize gave err %d, %zu bytes '...%s'; expected %zu bytes '...%s'", st, (int)e, wb.Size(),
+                        std::string(wb.ToString(), wb.Size()).substr(wb.Size() > 12 ? wb.Size() - 12 : 0).c_str(), exp.size(), exp.substr(exp.size() > 12 ? exp.size() - 12 : 0).c_str());
+      };
+      {
+        WriteBuffer wb;
+        cmp(wb, "fresh");
+        cmp(wb, "reused");
+      }
+      for (size_t c : {(size_t)8, (size_t)16, (size_t)1}) {
+        WriteBuffer wb(c);
+        cmp(wb, ("WriteBuffer(" + std::to_string(c) + ")").c_str());
+      }
+      if (d.Dump() != exp) ctx.violation("close_output", "ser_close_at_fill_output", desc, "Dump() differs from the expected text");
       return;
     }
     if (nm[1] == '7') {
